@@ -451,7 +451,7 @@ func (rn *runner) runProgram(g *gen, replay []string, steps int) {
 	resp := rn.m.Ask("reset")
 	st := parseDump(strings.SplitN(resp, " | ", 2)[1])
 	var ops []string
-	ora := &oracle{im: im, rep: e.Rep, prop: rn.prop, r: rn.oracleR, rec: map[string]string{}}
+	ora := &oracle{im: im, rep: e.Rep, prop: rn.prop, r: rn.oracleR, rec: map[string]string{}, replay: replay != nil}
 	ora.record(im.hashes[0], "")
 	n := steps
 	if replay != nil {
@@ -579,7 +579,7 @@ func main() {
 		runCase(c)
 	}
 	witnesses(rn)
-	progs := e.N(36, 400)
+	progs := e.N(20, 300)
 	for p := 0; p < progs; p++ {
 		g := &gen{r: e.Rng.Fork(), prop: *prop, usedCols: map[string]int{}}
 		steps := g.r.Range(25, 60)
